@@ -32,3 +32,12 @@ package zkdec
 //@   nopanic[C10]
 //@   inline
 //@   requires hash != nil && hash.h != nil && group != nil && public.C != nil && public.X != nil && pkok(public.Prover) && pkvals(public.Prover) && pkbig(public.Prover) && pedok(public.Aux) && commitment != nil
+//@   use absorb
+//@   ensures[C10] result1 == nil ==> absorbed(hstate(hash), habs(iface(public.C)))
+//@   ensures[C10] result1 == nil ==> absorbed(hstate(hash), habs(iface(public.X)))
+//@   ensures[C10] result1 == nil ==> absorbed(hstate(hash), habs(iface(public.Prover)))
+//@   ensures[C10] result1 == nil ==> absorbed(hstate(hash), habs(iface(public.Aux)))
+//@   ensures[C10] result1 == nil ==> absorbed(hstate(hash), habs(iface(commitment.S)))
+//@   ensures[C10] result1 == nil ==> absorbed(hstate(hash), habs(iface(commitment.T)))
+//@   ensures[C10] result1 == nil ==> absorbed(hstate(hash), habs(iface(commitment.A)))
+//@   ensures[C10] result1 == nil ==> absorbed(hstate(hash), habs(iface(commitment.Gamma)))
